@@ -29,7 +29,7 @@ def bounds(tier):
 
 
 def shards(tier):
-    return [("pat", a, b) for a in range(len(KEYS)) for b in range(len(KEYS))] + [("short", 0), ("ctor", 0), ("leak", 0)]
+    return [("pat", a, b) for a in range(len(KEYS)) for b in range(len(KEYS))] + [("short", 0), ("ctor", 0), ("leak", 0), ("unicode", 0)]
 
 
 def others():
@@ -253,6 +253,18 @@ def check_ctor(acc):
 def run_shard(shard, tier, acc):
     if shard[0] == "ctor":
         check_ctor(acc)
+        return
+    if shard[0] == "unicode":
+        UK = ["Stra\xdfe", "strasse", "STRASSE", "stra\xdfe", "\u017f", "s", "\u0130", "i\u0307", "\xc9", "\xe9", "e\u0301"]
+        for n in (1, 2, 3):
+            for keys in itertools.product(UK, repeat=n):
+                run_one(keys, "alphabetical", lambda ip: SortFieldsAlphabeticallyMiddleware(allow_inplace_modification=ip), acc)
+                run_one(keys, "normalize", lambda ip: NormalizeFieldKeys(allow_inplace_modification=ip), acc)
+                if n <= 2:
+                    for order, cs in ((("strasse", "\xe9"), False), (("Stra\xdfe",), True), (("\u0130", "s"), False)):
+                        folded = list(order) if cs else [k.lower() for k in order]
+                        rank = (lambda k, o=folded: o.index(k) if k in o else len(o)) if cs else (lambda k, o=folded: o.index(k.lower()) if k.lower() in o else len(o))
+                        run_one(keys, f"custom:{','.join(order)}:{'cs' if cs else 'ci'}", lambda ip, o=order, c=cs: SortFieldsCustomMiddleware(order=tuple(o), case_sensitive=c, allow_inplace_modification=ip), acc, rank)
         return
     if shard[0] == "leak":
         pats = [k for n in (1, 2, 3) for k in itertools.product(KEYS, repeat=n)]
